@@ -11,7 +11,7 @@
 (*                                                                                                     *)
 (* A w-bit word is a sequence of 0/1 of length w, index 1 = LEAST significant bit.  In traces a word     *)
 (* travels as the little-endian array of its 16-bit limbs (TLC integers are 32-bit).                     *)
-EXTENDS Integers, Sequences, FiniteSets
+EXTENDS Integers, Sequences, FiniteSets, TLC
 
 \* ---- words ---------------------------------------------------------------------------------------------
 Zero(w) == [i \in 1..w |-> 0]
@@ -114,17 +114,19 @@ XoFlat(s) == LimbsOfBits(s[1], 16) \o LimbsOfBits(s[2], 16) \o LimbsOfBits(s[3],
 StepE(eng, st) ==
     IF eng \in XsEngines
     THEN LET t == Triple(eng)
-             y == LimbsOfBits(XorShift(BitsOfLimbs(st, 16), t[1], t[2], t[3]), 16)
+             \* TLCEval: make the lazily represented function value concrete once (TLC would otherwise re-evaluate the
+             \* whole chain of steps for every element that is read later, e.g. in DiscardE or when printing)
+             y == TLCEval(LimbsOfBits(XorShift(BitsOfLimbs(st, 16), t[1], t[2], t[3]), 16))
          IN [out |-> y, post |-> y]                              \* xorshift returns its new state
     ELSE LET s == XoWords(st)
              o == CASE eng = "xop"  -> OutPlus(s, 16)
                     [] eng = "xopp" -> OutPlusPlus(s, 7, 16)
                     [] eng = "xoss" -> OutStarStar(s, 7, 16)
-         IN [out |-> LimbsOfBits(o, 16), post |-> XoFlat(XoNext(s, 9, 11))]
+         IN [out |-> TLCEval(LimbsOfBits(o, 16)), post |-> TLCEval(XoFlat(XoNext(s, 9, 11)))]
 
 \* [rand.req.eng] discard(z): "advances e's state e_i to e_(i+z) by any means equivalent to z consecutive calls e()"
 RECURSIVE DiscardE(_, _, _)
-DiscardE(eng, st, z) == IF z = 0 THEN st ELSE DiscardE(eng, StepE(eng, st).post, z - 1)
+DiscardE(eng, st, z) == IF z = 0 THEN st ELSE DiscardE(eng, TLCEval(StepE(eng, st).post), z - 1)
 
 \* E(s): the engines store the seed in (the first word of) the state, every other word is zero
 DefaultSeed == 5489
